@@ -8,7 +8,7 @@ def P(quick_runs, thorough_runs, level="exploration", quick_budget=40, thorough_
     return d
 
 PROPS = {
-    "C06": P(160000, 3000000, expect_reach=["c06.gates_released_after_join_issued", "c06.main_scheds_replaced_by_units", "c06.pool_reuse_units_released_after_join"],
+    "C06": P(160000, 3000000, expect_reach=["c06.gates_released_after_join_issued", "c06.main_scheds_replaced_by_units", "c06.pool_reuse_units_released_after_join", "c06.priv_pool_joins"],
              assumptions=["blocked units are released by an external thread only after the join/finalize that has to wait for them was issued; nobody pushes to a pool whose only stream is being joined", "scenario yield_to-race: as for C11"]),
     "C07": P(300000, 6000000, expect_reach=["pool.pop_gives_up_became_empty", "pool.removes_refused_unit_gone", "lin.decided", "pool.empty_pops", "pool.blocking_pop_got_unit"],
              assumptions=["clients respect the producer/consumer counts of the access mode; ABT_pool_remove is issued for a unit whose push has returned: by the sole consumer (it must succeed), or racing with the other consumers' pops (it may be refused, and then the unit was not in the pool at the linearisation point)",
@@ -37,7 +37,7 @@ PROPS = {
     "C18": P(16000, 300000, level="fault_enumeration", expect_reach=["c18.calls_failed_cleanly", "c18.routines_fully_enumerated", "c18.create_unit_failures"],
              assumptions=["the failing allocation is one issued by the calling thread inside the routine under test (allocations made by a newly started stream on its own thread are not failed)",
                           "a call may succeed despite the injected failure when a documented fall-back exists (other large-page type, non-strict stack guard); it must then be complete"]),
-    "C19": P(160000, 3000000, expect_reach=["waitlist.timeout_unlink_head", "waitlist.timeout_unlink_middle", "waitlist.timeout_unlink_tail", "waitlist.deadline_passed_but_signalled", "c19.timeouts", "c19.signal_with_certain_waiter", "pool.far_waits_that_got_a_unit"],
+    "C19": P(160000, 3000000, expect_reach=["waitlist.timeout_unlink_head", "waitlist.timeout_unlink_middle", "waitlist.timeout_unlink_tail", "waitlist.deadline_passed_but_signalled", "c19.timeouts", "c19.signal_with_certain_waiter", "pool.far_waits_that_got_a_unit", "pool.empty_blocking_pops_checked"],
              assumptions=["deadlines are relative to the run's virtual time scale; TIMEDOUT is checked against the virtual clock, never against elapsed steps"]),
     "C01": P(140000, 3000000, expect_reach=["sched.stacked_scheduler_stops", "c01.stacked_sched_finish_requests", "c01.late_cancels_before_revive"], assumptions=["units that create other units finish before streams are joined (a creation racing with the join of the only stream serving the target pool is the program's error)"]),
     "C03": P(160000, 3000000, expect_reach=["join.suspend_join", "join.exiting_ult_waits_for_p_link", "join.yield_loop_for_tasklet", "join.futex_wait", "join.fallback_yield_loop_target_terminating"], assumptions=["one joiner per target (API contract); a tasklet joiner only joins targets served by other streams; unbounded yield loops are kept where the strict pool priority of the predefined schedulers cannot starve the awaited unit"]),
